@@ -38,5 +38,10 @@ func (msg *MsgJoinPool) ValidateBasic() error {
 		}
 	}
 
+	// the keeper treats MaxAmountsIn as an sdk.Coins set: it must be sorted and free of duplicate denoms
+	if err = sdk.Coins(msg.MaxAmountsIn).Validate(); err != nil {
+		return errorsmod.Wrapf(sdkerrors.ErrInvalidCoins, "invalid max amounts in (%s)", err)
+	}
+
 	return nil
 }
